@@ -1,7 +1,8 @@
-import Ccp.Model.Tree
+import Ccp.Proofs.TreeForest
 namespace Ccp.C03
 open Ccp.Tree Ccp.Py
 
-theorem placeholder_reparent_texts (t : T) (p c : Nat) : (reparent t p c).texts = t.texts := rfl
+/-- every parse yields a forest -/
+theorem parse_forest (cfg : Cfg) (ls : List Str) : Forest (parse cfg ls) := bootstrap_forest cfg _
 
 end Ccp.C03
